@@ -479,7 +479,13 @@ write_code(ostream &out_code,ostream * out_include, InterrogateModuleDef *def) {
       assert(next_index == this_index);
       FunctionRemap *remap = (*ii).second;
 
-      out_code << "  (void *)&" << remap->_wrapper_name << ",\n";
+      if (remap->_wrapper_name.empty()) {
+        // This back-end doesn't generate a separate function per wrapper
+        // (e.g. -python-native), so there is nothing to point at.
+        out_code << "  (void *)0,\n";
+      } else {
+        out_code << "  (void *)&" << remap->_wrapper_name << ",\n";
+      }
       next_index++;
     }
     while (next_index < num_wrappers + 1) {
